@@ -115,8 +115,8 @@ def check(case):
 REQUIRED_LABELS = ['muscl_uniform/model:burgers', 'muscl_uniform/sign-change', 'muscl_uniform/num:superbee', 'muscl_uniform/num:vanleer', 'muscl_uniform/num:vanalbada', 'muscl_uniform/num:minmod', 'first_order_any_mesh/inflow']
 
 SUBCHECKS = [
-    SubCheck("first_order_any_mesh", check, strategy=strat_first, examples={"quick": 600, "thorough": 2500}, shards={"quick": 4, "thorough": 16}),
-    SubCheck("muscl_uniform", check, strategy=strat_muscl, examples={"quick": 700, "thorough": 3000}, shards={"quick": 6, "thorough": 16}),
+    SubCheck("first_order_any_mesh", check, strategy=sim.with_units(strat_first), examples={"quick": 600, "thorough": 2500}, shards={"quick": 4, "thorough": 16}),
+    SubCheck("muscl_uniform", check, strategy=sim.with_units(strat_muscl), examples={"quick": 700, "thorough": 3000}, shards={"quick": 6, "thorough": 16}),
 ]
 
 META = dict(
